@@ -120,6 +120,7 @@ class Builder:
         self.wt, self.rng, self.d = wt, rng, wt.basedir
         self.n = 0
         self.ops = []
+        self.basis_ids = set()
 
     def fresh(self, p):
         self.n += 1
@@ -255,6 +256,8 @@ class Builder:
         fid, path = self.pick(kinds)
         if path is None:
             return None
+        if mode == "missing" and fid not in self.basis_ids:
+            return None      # an added file that is missing from disk is not a pending change the property speaks about
         p = _join(self.d, path)
         if mode == "remove":
             self.wt.remove([path], keep_files=False, force=True)
@@ -333,6 +336,7 @@ def build_scenario(seedt, root=None):
         b.add()
     wt.commit("base", rev_id=b"rev-base", timestamp=1000000000, timezone=0, committer="V <v@e.c>")
     b.ops = []
+    b.basis_ids = set(b.paths())
     want = rng.randint(1, 4)
     tries = 0
     while len(b.ops) < want and tries < 20:
@@ -383,7 +387,7 @@ def dump_wt(d):
     inventory + disk; versioned paths that are not on disk are listed in `missing` (and left out)"""
     from breezy.workingtree import WorkingTree
     wt = WorkingTree.open(d)
-    ents, missing, vpaths = {}, [], set()
+    ents, missing, vpaths, rec = {}, [], set(), {}
     with wt.lock_read():
         for path, ie in wt.iter_entries_by_dir():
             vpaths.add(path)
@@ -392,6 +396,8 @@ def dump_wt(d):
                 missing.append(ie.file_id)
                 continue
             ents[ie.file_id] = (ie.parent_id, ie.name) + de
+            if de[0] == "f":
+                rec[ie.file_id] = bool(ie.executable)
         confl = len(wt.conflicts())
     strays = {}
     for dirpath, dirnames, filenames in os.walk(d):
@@ -404,7 +410,36 @@ def dump_wt(d):
             if r not in vpaths:
                 strays[r] = _disk_entry(os.path.join(dirpath, n))[:2]
         dirnames[:] = [x for x in dirnames if not os.path.islink(os.path.join(dirpath, x))]
-    return ents, sorted(missing), strays, confl
+    return ents, sorted(missing), strays, confl, rec
+
+
+def _under(tree):
+    tt = getattr(tree, "_transform", None)
+    return None if tt is None else tt._tree
+
+
+def _preview_text(tree, path, file_id):
+    """PreviewTree.get_file looks an unmodified text up in the underlying tree under the NEW path;
+    for a renamed, unmodified file read it from the underlying tree by id instead"""
+    from dromedary.errors import NoSuchFile
+    try:
+        return tree.get_file_text(path)
+    except NoSuchFile:
+        base = _under(tree)
+        if base is None:
+            raise
+        return base.get_file_text(base.id2path(file_id))
+
+
+def _preview_target(tree, path, file_id):
+    from dromedary.errors import NoSuchFile
+    try:
+        return tree.get_symlink_target(path)
+    except (NoSuchFile, OSError):
+        base = _under(tree)
+        if base is None:
+            raise
+        return base.get_symlink_target(base.id2path(file_id))
 
 
 def dump_tree(tree):
@@ -414,9 +449,9 @@ def dump_tree(tree):
         for path, ie in tree.iter_entries_by_dir():
             k = tree.kind(path)
             if k == "file":
-                de = ("f", tree.get_file_text(path), bool(tree.is_executable(path)))
+                de = ("f", _preview_text(tree, path, ie.file_id), bool(tree.is_executable(path)))
             elif k == "symlink":
-                de = ("l", tree.get_symlink_target(path).encode(), False)
+                de = ("l", _preview_target(tree, path, ie.file_id).encode(), False)
             elif k == "directory":
                 de = ("d", b"", False)
             else:
@@ -507,7 +542,7 @@ def analyse(sc):
     from breezy.workingtree import WorkingTree
     from breezy import shelf
     d = sc["dir"]
-    W, missing, strays, confl = dump_wt(d)
+    W, missing, strays, confl, rec = dump_wt(d)
     wt = WorkingTree.open(d)
     items, hunks, changes = [], {}, []
     with wt.lock_tree_write():
@@ -538,7 +573,7 @@ def analyse(sc):
                             items.append(("hunk", fid, k))
         finally:
             cr.finalize()
-    return dict(B=B, W=W, missing=missing, strays=strays, items=items, hunks=hunks, changes=changes)
+    return dict(B=B, W=W, missing=missing, strays=strays, items=items, hunks=hunks, changes=changes, rec=rec)
 
 
 def err_kind(e):
